@@ -120,6 +120,52 @@ theorem excl0_sign (p : QPoly) (X : CI) (h : (ieval p X).excl0 = true) :
     exact lt_of_le_of_lt he.2 this
 
 
+/-! ### centred form -/
+
+theorem evalR_taylor (p : QPoly) (m : ℚ) (h : ℝ) : evalR (taylor p m) h = evalR p ((m : ℝ) + h) := by
+  induction p with
+  | nil => simp [taylor, evalR_nil]
+  | cons c p ih =>
+    rw [taylor]
+    unfold evalR toPolyR at ih ⊢
+    rw [toPoly_add, toPoly_mul, Polynomial.map_add, Polynomial.map_mul, eval_add, eval_mul, ih]
+    simp [toPoly_cons, toPoly_nil]
+
+theorem ievalC_encloses (p : QPoly) (X : CI) (x : ℝ) (hx : X.memR x) : (ievalC p X).memR (evalR p x) := by
+  unfold ievalC
+  simp only
+  have hmem : (CI.mk (X.lo - (X.lo + X.hi) / 2) (X.hi - (X.lo + X.hi) / 2)).memR (x - (((X.lo + X.hi) / 2 : ℚ) : ℝ)) := by
+    unfold CI.memR at *
+    constructor <;> push_cast <;> linarith [hx.1, hx.2]
+  have := ieval_encloses (taylor p ((X.lo + X.hi) / 2)) _ _ hmem
+  rw [evalR_taylor] at this
+  simpa using this
+
+theorem excl0C_ne (p : QPoly) (X : CI) (h : (ievalC p X).excl0 = true) (x : ℝ) (hx : X.memR x) : evalR p x ≠ 0 := by
+  have he := ievalC_encloses p X x hx
+  unfold CI.excl0 at h
+  simp only [Bool.or_eq_true, decide_eq_true_eq] at h
+  unfold CI.memR at he
+  rcases h with h | h
+  · have : (0 : ℝ) < ((ievalC p X).lo : ℝ) := by exact_mod_cast h
+    intro h0; rw [h0] at he; linarith [he.1]
+  · have : ((ievalC p X).hi : ℝ) < 0 := by exact_mod_cast h
+    intro h0; rw [h0] at he; linarith [he.2]
+
+theorem excl0C_sign (p : QPoly) (X : CI) (h : (ievalC p X).excl0 = true) :
+    (∀ x, X.memR x → 0 < evalR p x) ∨ (∀ x, X.memR x → evalR p x < 0) := by
+  unfold CI.excl0 at h
+  simp only [Bool.or_eq_true, decide_eq_true_eq] at h
+  rcases h with h | h
+  · left; intro x hx
+    have he := ievalC_encloses p X x hx
+    have : (0 : ℝ) < ((ievalC p X).lo : ℝ) := by exact_mod_cast h
+    exact lt_of_lt_of_le this he.1
+  · right; intro x hx
+    have he := ievalC_encloses p X x hx
+    have : ((ievalC p X).hi : ℝ) < 0 := by exact_mod_cast h
+    exact lt_of_le_of_lt he.2 this
+
 /-! ### monotonicity from a sign-definite derivative -/
 
 theorem deriv_evalR (p : QPoly) (x : ℝ) : deriv (evalR p) x = evalR (QPoly.derivative p) x := by
@@ -129,13 +175,13 @@ theorem deriv_evalR (p : QPoly) (x : ℝ) : deriv (evalR p) x = evalR (QPoly.der
 
 theorem continuous_evalR (p : QPoly) : Continuous (evalR p) := (toPolyR p).continuous
 
-theorem mono_of_excl0 (p : QPoly) (a b : ℚ) (h : (ieval (QPoly.derivative p) ⟨a, b⟩).excl0 = true) :
+theorem mono_of_excl0 (p : QPoly) (a b : ℚ) (h : (ievalC (QPoly.derivative p) ⟨a, b⟩).excl0 = true) :
     StrictMonoOn (evalR p) (Set.Icc (a : ℝ) b) ∨ StrictAntiOn (evalR p) (Set.Icc (a : ℝ) b) := by
   have hmem : ∀ x ∈ interior (Set.Icc (a : ℝ) b), (CI.mk a b).memR x := by
     intro x hx
     rw [interior_Icc] at hx
     exact ⟨le_of_lt hx.1, le_of_lt hx.2⟩
-  rcases excl0_sign _ _ h with hs | hs
+  rcases excl0C_sign _ _ h with hs | hs
   · left
     apply strictMonoOn_of_deriv_pos (convex_Icc _ _) (continuous_evalR p).continuousOn
     intro x hx
@@ -213,13 +259,13 @@ theorem isoLoop_sound (p : QPoly) : ∀ (fuel : ℕ) (a b : ℚ) (L : List Cell)
     intro a b L hab h
     have habR : (a : ℝ) < b := by exact_mod_cast hab
     rw [isoLoop] at h
-    by_cases h1 : (ieval p ⟨a, b⟩).excl0 = true
+    by_cases h1 : (ievalC p ⟨a, b⟩).excl0 = true
     · -- p has no root on [a, b]
       rw [if_pos h1] at h
       cases h
-      exact isolates_nil p a b (fun x hx1 hx2 => excl0_ne p ⟨a, b⟩ h1 x ⟨hx1.le, hx2.le⟩)
+      exact isolates_nil p a b (fun x hx1 hx2 => excl0C_ne p ⟨a, b⟩ h1 x ⟨hx1.le, hx2.le⟩)
     rw [if_neg h1] at h
-    by_cases h2 : (ieval (QPoly.derivative p) ⟨a, b⟩).excl0 = true
+    by_cases h2 : (ievalC (QPoly.derivative p) ⟨a, b⟩).excl0 = true
     · rw [if_pos h2] at h
       have hm := mono_of_excl0 p a b h2
       by_cases h3 : QPoly.eval p a * QPoly.eval p b < 0
@@ -383,7 +429,10 @@ def InI (a : ℚ) (ao : Bool) (b : ℚ) (bo : Bool) (x : ℝ) : Prop :=
   (if ao then (a : ℝ) < x else (a : ℝ) ≤ x) ∧ (if bo then x < (b : ℝ) else x ≤ (b : ℝ))
 
 theorem isolateOpen_sound (p : QPoly) (a b : ℚ) (L : List Cell) (hab : a < b) (h : isolateOpen p a b = some L) :
-    Isolates p a b L := isoLoop_sound p _ a b L hab h
+    Isolates p a b L := by
+  unfold isolateOpen at h
+  split_ifs at h
+  exact isoLoop_sound p _ a b L hab h
 
 /-- **root counting is exact**: a successful `countIn` is the length of a strictly increasing list that
     enumerates exactly the real roots in the interval, honouring the strictness of each end -/
